@@ -215,7 +215,10 @@ class Session:
             self.e = policy.Enforcer(conf, policy_file=path, **kw)
             conf.set_override('policy_dirs', [], group='oslo_policy')
             conf.set_override('enforce_scope', bool(enforce_scope), group='oslo_policy')
-            self.e.load_rules()         # the session starts with the file loaded
+            try:
+                self.e.load_rules()         # the session starts with the file loaded
+            except Exception:               # (if loading fails, so will the first enforcement call - observed there)
+                pass
         else:
             self.e = ev.make_enforcer(texts, dflt, reg, enforce_scope, via)
         self.trace = {'init': {'rules': [[n, ev.strip(t)] for n, t in rules], 'dflt': dflt_spec(dflt)}, 'events': []}
